@@ -37,7 +37,13 @@
 EXTENDS Naturals, Integers, Sequences, FiniteSets, TLC
 
 CONSTANTS Recorders,   \* ids of recording threads (concurrent part)
-          Drainers     \* ids of threads calling render() / run_upkeep() concurrently
+          Drainers,    \* ids of threads calling render() / run_upkeep() concurrently
+          LockedDrain  \* TRUE: as coded -- drain_histograms_to_distributions holds the distributions write lock
+                       \*   from before clear_with until record_samples returned, key by key.
+                       \* FALSE: two-phase variant (kept to show that the model tells the difference): every bucket
+                       \*   is first emptied into a private buffer with no lock held, the buffers are folded into
+                       \*   the distributions afterwards under one lock (DFold); a render of ANOTHER thread in
+                       \*   between reports less than was recorded (RenderFaithful / RenderBounds fail).
 
 LE  == 100      \* label-name id of `le`
 QU  == 101      \* label-name id of `quantile`
@@ -54,7 +60,9 @@ VARIABLES
   lock,       \* holder of the distributions write lock inside a per-key drain (0: free)
   dkey, dst, det, dep,  \* the per-key drain in progress: key, "none"|"det"|"qok", detached bag, its block number
   rpc, rk, rv, rep,     \* recorders: "idle"|"fixed", key, sample, block number fixed
-  dpc, dop, todo, csnap, gsnap,  \* drainers: "idle"|"drain", "render"|"upkeep", keys still to drain, counter/gauge snapshot
+  dpc, dop, todo, csnap, gsnap,  \* drainers: "idle"|"drain"|"folded", "render"|"upkeep", keys still to drain, counter/gauge snapshot
+  buf,        \* drainer -> key -> bag: private buffer of the two-phase variant (always empty when LockedDrain)
+  nbeg,       \* (history) drainer -> key -> samples counted for the key when its render began
   desc,       \* name -> <<description id, unit id>> (first wins)
   out,        \* exposition produced by the last finished render
   \* ---- history (never read by a guard)
@@ -62,6 +70,8 @@ VARIABLES
   pclean,     \* no update since the last finished render began
   twiceOK,    \* verdict: render; render without update in between gave equal expositions
   faithful,   \* verdict: a render with no update since it began reported exactly what was recorded
+  bounded,    \* verdict: EVERY render reported, per histogram series, at least the samples recorded before it
+              \*          began and at most those recorded when it ended
   crec,       \* key -> bag of every sample ever claimed
   lost,       \* key -> bag of samples lost to CF05a
   cinc, cabs, \* counter key -> sum of increments ; highest absolute value (sparse, defaults 0 / -1)
@@ -71,9 +81,9 @@ vScal  == <<ctr, gau, cinc, cabs>>
 vHist  == <<hreg, pend, dist, att, ep, crec, lost>>
 vDrain == <<lock, dkey, dst, det, dep>>
 vRec   == <<rpc, rk, rv, rep>>
-vDr    == <<dpc, dop, todo, csnap, gsnap>>
+vDr    == <<dpc, dop, todo, csnap, gsnap, buf, nbeg>>
 vDirty == <<upd, pclean>>
-vOut   == <<out, twiceOK, faithful>>
+vOut   == <<out, twiceOK, faithful, bounded>>
 vDesc  == <<desc, dfirst>>
 vars   == <<cfg, vScal, vHist, vDrain, vRec, vDr, vDirty, vOut, vDesc>>
 
@@ -158,9 +168,10 @@ InitWith(c) ==
   /\ rv = [p \in Recorders |-> 0] /\ rep = [p \in Recorders |-> 0]
   /\ dpc = [d \in Drainers |-> "idle"] /\ dop = [d \in Drainers |-> "none"]
   /\ todo = [d \in Drainers |-> {}] /\ csnap = [d \in Drainers |-> EF] /\ gsnap = [d \in Drainers |-> EF]
+  /\ buf = [d \in Drainers |-> EF] /\ nbeg = [d \in Drainers |-> EF]
   /\ desc = EF /\ dfirst = EF
   /\ out = {}
-  /\ upd = [d \in Drainers |-> FALSE] /\ pclean = FALSE /\ twiceOK = TRUE /\ faithful = TRUE
+  /\ upd = [d \in Drainers |-> FALSE] /\ pclean = FALSE /\ twiceOK = TRUE /\ faithful = TRUE /\ bounded = TRUE
 
 \* an update: the output of a later render may differ
 Dirty == upd' = [d \in Drainers |-> TRUE] /\ pclean' = FALSE
@@ -256,10 +267,18 @@ RecordA(k, v) ==
 (* render() / run_upkeep()                                                 *)
 
 \* bookkeeping of a finished render producing `o`; cleanSince: no update since it began
-Finish(o, cleanSince) ==
+\* samples accounted for per histogram key right now (everything claimed, minus the CF05a losses)
+NowCounts == [k \in hreg |-> BCount(Get(crec, k, EF)) - BCount(Get(lost, k, EF))]
+\* every series that existed when the render began shows a count between `lo` and what is recorded now
+Within(o, lo) ==
+  \A k \in DOMAIN lo :
+    /\ ValsOf(o, k[1], "count", Merged(k)) # {}
+    /\ \A c \in ValsOf(o, k[1], "count", Merged(k)) : lo[k] <= c /\ c <= NowCounts[k]
+Finish(o, cleanSince, lo) ==
   /\ out' = o
   /\ twiceOK' = (twiceOK /\ (pclean => o = out))
   /\ faithful' = (faithful /\ (cleanSince => Complete(o)))
+  /\ bounded' = (bounded /\ Within(o, lo))
   /\ pclean' = cleanSince
 
 \* drain_histograms_to_distributions run to completion: every registered histogram gets its
@@ -273,7 +292,7 @@ UpkeepA ==
 
 RenderA ==
   /\ Quiet /\ DrainAll
-  /\ Finish(Expo(ctr, gau, DrainedDist), TRUE)
+  /\ Finish(Expo(ctr, gau, DrainedDist), TRUE, NowCounts)
   /\ UNCHANGED <<cfg, vScal, hreg, ep, crec, lost, vDrain, vRec, vDr, upd, vDesc>>
 
 \* ---- the same calls at the granularity of the per-key drains (concurrent part)
@@ -285,7 +304,9 @@ DBegin(d, op) ==
   /\ todo' = [todo EXCEPT ![d] = hreg]
   /\ csnap' = [csnap EXCEPT ![d] = IF op = "render" THEN ctr ELSE EF]
   /\ gsnap' = [gsnap EXCEPT ![d] = IF op = "render" THEN gau ELSE EF]
+  /\ nbeg' = [nbeg EXCEPT ![d] = IF op = "render" THEN NowCounts ELSE EF]
   /\ upd' = [upd EXCEPT ![d] = FALSE]
+  /\ UNCHANGED buf
   /\ UNCHANGED <<cfg, vScal, vHist, vDrain, vRec, pclean, vOut, vDesc>>
 
 \* a key whose bucket is empty (tail null): clear_with does nothing; the distribution is created
@@ -293,16 +314,16 @@ DNull(d) ==
   /\ dpc[d] = "drain" /\ lock = 0
   /\ \E k \in todo[d] :
        /\ ~Get(att, k, FALSE)
-       /\ dist' = IF k \in DOMAIN dist THEN dist ELSE Put(dist, k, EF)
+       /\ dist' = IF k \in DOMAIN dist \/ ~LockedDrain THEN dist ELSE Put(dist, k, EF)
        /\ todo' = [todo EXCEPT ![d] = @ \ {k}]
-  /\ UNCHANGED <<cfg, vScal, hreg, pend, att, ep, crec, lost, vDrain, vRec, dpc, dop, csnap, gsnap, vDirty, vOut, vDesc>>
+  /\ UNCHANGED <<cfg, vScal, hreg, pend, att, ep, crec, lost, vDrain, vRec, dpc, dop, csnap, gsnap, buf, nbeg, vDirty, vOut, vDesc>>
 
 \* write lock taken, distribution created if missing, clear_with: tail CAS to null
 DDetach(d, k) ==
   /\ dpc[d] = "drain" /\ lock = 0 /\ k \in todo[d] /\ Get(att, k, FALSE)
   /\ lock' = d /\ dkey' = k /\ dst' = "det" /\ det' = Get(pend, k, EF) /\ dep' = Get(ep, k, 0)
   /\ pend' = Upd(pend, k, EF, EF) /\ att' = Upd(att, k, FALSE, FALSE)
-  /\ dist' = IF k \in DOMAIN dist THEN dist ELSE Put(dist, k, EF)
+  /\ dist' = IF k \in DOMAIN dist \/ ~LockedDrain THEN dist ELSE Put(dist, k, EF)
   /\ UNCHANGED <<cfg, vScal, hreg, ep, crec, lost, vRec, vDr, vDirty, vOut, vDesc>>
 
 \* the is_quiesced() that succeeds (every claimed slot of the block acknowledged)
@@ -314,20 +335,32 @@ DQok(d) ==
 \* data(): length read; record_samples(); lock released
 DDeliver(d) ==
   /\ lock = d /\ dst = "qok"
-  /\ dist' = Put(dist, dkey, BPlus(dist[dkey], det))
+  /\ IF LockedDrain
+       THEN dist' = Put(dist, dkey, BPlus(dist[dkey], det)) /\ UNCHANGED buf
+       ELSE buf' = [buf EXCEPT ![d] = Upd(@, dkey, BPlus(Get(@, dkey, EF), det), EF)] /\ UNCHANGED dist
   /\ todo' = [todo EXCEPT ![d] = @ \ {dkey}]
   /\ lock' = 0 /\ dkey' = NoKey /\ dst' = "none" /\ det' = EF /\ dep' = 0
-  /\ UNCHANGED <<cfg, vScal, hreg, pend, att, ep, crec, lost, vRec, dpc, dop, csnap, gsnap, vDirty, vOut, vDesc>>
+  /\ UNCHANGED <<cfg, vScal, hreg, pend, att, ep, crec, lost, vRec, dpc, dop, csnap, gsnap, nbeg, vDirty, vOut, vDesc>>
+
+\* (two-phase variant only) every bucket emptied: write lock taken once, every handle's distribution created
+\* if missing, the private buffer folded in.  (`lock` serialises the bucket drains in this variant too: a
+\* simplification, the variant only serves as the witness that the locked drain matters.)
+DFold(d) ==
+  /\ ~LockedDrain /\ dpc[d] = "drain" /\ todo[d] = {} /\ lock = 0
+  /\ dist' = [k \in DOMAIN dist \cup hreg |-> BPlus(Get(dist, k, EF), Get(buf[d], k, EF))]
+  /\ buf' = [buf EXCEPT ![d] = EF]
+  /\ dpc' = [dpc EXCEPT ![d] = "folded"]
+  /\ UNCHANGED <<cfg, vScal, hreg, pend, att, ep, crec, lost, vDrain, vRec, dop, todo, csnap, gsnap, nbeg, vDirty, vOut, vDesc>>
 
 \* every key drained; render(): distributions.read().clone() and formatting
 DEnd(d) ==
-  /\ dpc[d] = "drain" /\ todo[d] = {} /\ lock = 0
+  /\ dpc[d] = (IF LockedDrain THEN "drain" ELSE "folded") /\ todo[d] = {} /\ lock = 0
   /\ dpc' = [dpc EXCEPT ![d] = "idle"] /\ dop' = [dop EXCEPT ![d] = "none"]
-  /\ csnap' = [csnap EXCEPT ![d] = EF] /\ gsnap' = [gsnap EXCEPT ![d] = EF]
+  /\ csnap' = [csnap EXCEPT ![d] = EF] /\ gsnap' = [gsnap EXCEPT ![d] = EF] /\ nbeg' = [nbeg EXCEPT ![d] = EF]
   /\ IF dop[d] = "render"
-       THEN Finish(Expo(csnap[d], gsnap[d], dist), ~upd[d])
-       ELSE UNCHANGED <<out, twiceOK, faithful, pclean>>
-  /\ UNCHANGED <<cfg, vScal, vHist, vDrain, vRec, todo, upd, vDesc>>
+       THEN Finish(Expo(csnap[d], gsnap[d], dist), ~upd[d], nbeg[d])
+       ELSE UNCHANGED <<out, twiceOK, faithful, bounded, pclean>>
+  /\ UNCHANGED <<cfg, vScal, vHist, vDrain, vRec, todo, buf, upd, vDesc>>
 
 -----------------------------------------------------------------------------
 (* Properties                                                              *)
@@ -335,13 +368,18 @@ DEnd(d) ==
 \* every sample ever recorded under a key is in exactly one place: the bucket, the drain in
 \* progress, the distribution -- or it is a CF05a loss
 InDet(k) == IF dkey = k THEN det ELSE EF
+RECURSIVE InBufs(_, _)
+InBufs(k, D) == IF D = {} THEN EF ELSE LET d == CHOOSE x \in D : TRUE IN BPlus(Get(buf[d], k, EF), InBufs(k, D \ {d}))
 Conservation ==
   \A k \in hreg :
-    Get(crec, k, EF) = BPlus(BPlus(Get(pend, k, EF), InDet(k)), BPlus(Get(dist, k, EF), Get(lost, k, EF)))
+    Get(crec, k, EF) = BPlus(BPlus(BPlus(Get(pend, k, EF), InDet(k)), InBufs(k, Drainers)), BPlus(Get(dist, k, EF), Get(lost, k, EF)))
 \* the strict property (no allowance for CF05a)
 StrictConservation == Conservation /\ lost = EF
 \* a render with no update since it began reported count / sum / counter / gauge values exactly
 RenderFaithful == faithful
+\* EVERY render (also one racing updates, an upkeep or another render) shows for every histogram series a count
+\* that is at least what had been recorded when it began and at most what is recorded when it ends
+RenderBounds == bounded
 \* with no recorder racing a drain nothing is ever lost (sequential histories: always)
 NoLossSequential == (Recorders = {}) => lost = EF
 \* counters: total of the increments (mod 2^64), or the highest absolute value
@@ -366,5 +404,5 @@ TypeOK ==
   /\ (dst = "none") <=> (lock = 0)
   /\ DOMAIN dist \subseteq hreg /\ DOMAIN pend \subseteq hreg
   /\ \A p \in Recorders : rpc[p] \in {"idle", "fixed"}
-  /\ \A d \in Drainers : dpc[d] \in {"idle", "drain"} /\ todo[d] \subseteq hreg
+  /\ \A d \in Drainers : dpc[d] \in {"idle", "drain", "folded"} /\ todo[d] \subseteq hreg
 =============================================================================
